@@ -10,6 +10,7 @@ for D in "$@"; do
   [ -f "$D/confirm.json" ] && continue
   cd $WT && git checkout -q -- . && git clean -fdq cola/lib*/tests/output 2>/dev/null
   APPLY=ok; git apply "$D/patch.diff" 2>/tmp/confirm_apply.log || APPLY=fail
+  WRAP=""; [ -f "$D/demo.wrap" ] && WRAP=$(cat "$D/demo.wrap")     # e.g. "valgrind -q --error-exitcode=99" for memory-safety demos
   BUILD=skip; SUITE=skip; DEMO_WITH=skip; DEMO_WITHOUT=skip; FAILS=""
   if [ $APPLY = ok ]; then
     (cd $WT/cola && make -j16 >/tmp/confirm_make.log 2>&1) && BUILD=ok || BUILD=fail
@@ -18,13 +19,13 @@ for D in "$@"; do
       FAILS=$(grep -h "^# \(FAIL\|ERROR\):" /tmp/confirm_check.log | awk '{s+=$3} END {print s+0}')
       TOTAL=$(grep -h "^# TOTAL:" /tmp/confirm_check.log | awk '{s+=$3} END {print s+0}')
       SUITE="total=$TOTAL failing=$FAILS"
-      (cd "$D" && g++ -std=gnu++11 -I$WT/cola demo.cpp -o /tmp/confirm_demo $LIBS >/tmp/confirm_demo_build.log 2>&1) || DEMO_WITH=buildfail
-      if [ "$DEMO_WITH" != buildfail ]; then (cd "$D" && timeout 600 /tmp/confirm_demo >/tmp/confirm_demo_with.log 2>&1); DEMO_WITH="exit=$?"; fi
+      (cd "$D" && g++ -std=gnu++11 -g -I$WT/cola demo.cpp -o /tmp/confirm_demo $LIBS >/tmp/confirm_demo_build.log 2>&1) || DEMO_WITH=buildfail
+      if [ "$DEMO_WITH" != buildfail ]; then (cd "$D" && timeout 900 $WRAP /tmp/confirm_demo >/tmp/confirm_demo_with.log 2>&1); DEMO_WITH="exit=$?"; fi
     fi
     cd $WT && git checkout -q -- .
     (cd $WT/cola && make -j16 >/tmp/confirm_make2.log 2>&1)
-    (cd "$D" && g++ -std=gnu++11 -I$WT/cola demo.cpp -o /tmp/confirm_demo $LIBS >/tmp/confirm_demo_build2.log 2>&1) || DEMO_WITHOUT=buildfail
-    if [ "$DEMO_WITHOUT" != buildfail ]; then (cd "$D" && timeout 600 /tmp/confirm_demo >/tmp/confirm_demo_without.log 2>&1); DEMO_WITHOUT="exit=$?"; fi
+    (cd "$D" && g++ -std=gnu++11 -g -I$WT/cola demo.cpp -o /tmp/confirm_demo $LIBS >/tmp/confirm_demo_build2.log 2>&1) || DEMO_WITHOUT=buildfail
+    if [ "$DEMO_WITHOUT" != buildfail ]; then (cd "$D" && timeout 900 $WRAP /tmp/confirm_demo >/tmp/confirm_demo_without.log 2>&1); DEMO_WITHOUT="exit=$?"; fi
   fi
   printf '{"seed":"%s","apply":"%s","build":"%s","suite":"%s","demo_with_change":"%s","demo_without_change":"%s","confirmed_at":"%s"}\n' \
      "$D" "$APPLY" "$BUILD" "$SUITE" "$DEMO_WITH" "$DEMO_WITHOUT" "$(date -u +%FT%TZ)" > "$D/confirm.json"
